@@ -103,6 +103,10 @@ class Ctx:
                     print("  " + blob[:400])
         if n_unknown > 25:
             print(f"  ... and {n_unknown - 25} more distinct violations")
+            import collections
+            grp = collections.Counter(json.dumps({k: v["key"].get(k) for k in ("check", "how", "kind", "part", "engine", "op", "other") if k in v["key"]}, sort_keys=True) for v in unknown)
+            for g, n in grp.most_common(12):
+                print(f"  summary: {n} x {g}")
         cov = {
             "states": self.states, "transitions": self.transitions,
             "traces_validated_against_impl": self.traces, "events_validated": self.events,
